@@ -166,6 +166,14 @@ Proof.
   destruct H.
 Qed.
 
+Lemma w2_links_len : forall u code links, w2_site u = Doc code links -> (length links <= 2)%nat.
+Proof.
+  intros u code links S. unfold w2_site in S. destruct (site_of_cases w2_sitel u) as [E|H]; [congruence|].
+  rewrite S in H. cbn in H.
+  repeat (destruct H as [H|H]; [inversion H; subst; cbn; lia|]).
+  destruct H.
+Qed.
+
 (* F29: under a depth limit the set of URLs a crawl fetches depends on the schedule *)
 Lemma schedule_independent_refuted :
   exists site host in_scope maxredir starts conc s1 s2 u,
@@ -192,11 +200,12 @@ Lemma c01_nonvacuous :
   (forall sp sp', (forall h, In h sp <-> In h sp') -> forall b u i n, w2_scope sp b u i n = w2_scope sp' b u i n) /\
   no_fail w2_site 20 /\
   (forall u code links l, w2_site u = Doc code links -> In l links -> In (fst l) [1; 2; 3; 4; 5; 6]) /\
+  (forall u code links, w2_site u = Doc code links -> (length links <= 2)%nat) /\
   reach_nc w2_site w2_host w2_scope 20 [1] 2 (get w2_par) /\
   quiescent w2_site w2_host w2_scope 20 [1] 2 (get w2_par) /\
   length (st_tbl (get w2_par)) = 5%nat /\ all_reqs (st_log (get w2_par)) = [5; 2; 4; 3; 1].
 Proof.
-  split; [apply cscope_ext|]. split; [exact w2_no_fail|]. split; [exact w2_finite|].
+  split; [apply cscope_ext|]. split; [exact w2_no_fail|]. split; [exact w2_finite|]. split; [exact w2_links_len|].
   split; [apply (run_labels_reach_nc _ _ _ _ _ _ w2_labels init); [reflexivity | constructor | vm_compute; reflexivity]|].
   split; [apply quiescent_of_shape; vm_compute; reflexivity|].
   split; vm_compute; reflexivity.
